@@ -22,8 +22,13 @@ type fakeScript struct {
 	Fault        string
 	FaultAt      int
 	CutBytes     int
+	FaultName    string // "preanswer": the test name answered before (or without) being read
 	StdinFault   string
 	StdinFaultAt int
+	// SyncStdin gives the input pipe io.Pipe's semantics: every Write (a zero-length one
+	// included) blocks until the client's reading side takes it (a gate of its own,
+	// "client.read") or until the pipe is closed, which fails the write.
+	SyncStdin bool
 	// Answer, if set, builds the response for a request (default: empty response with the name).
 	Answer func(req *conformancev1.ClientCompatRequest) *conformancev1.ClientCompatResponse
 	// OnReceive, if set, is told about every request at the moment the client reads it from its input.
@@ -58,6 +63,15 @@ type fakeProc struct {
 	blockedWrites int
 	faultBytes    bool           // some scripted fault wrote bytes to stdout
 	clean         map[string]int // answers emitted while the output stream was still well-formed
+	preanswered   string
+	pendSet       bool           // SyncStdin: a Write is waiting to be taken
+	pend          []byte
+	pendCh        chan fakeWriteRes
+}
+
+type fakeWriteRes struct {
+	n   int
+	err error
 }
 
 func newFakeProc(x *gate.Exec, script fakeScript) *fakeProc {
@@ -75,6 +89,27 @@ func (fp *fakeProc) starter() processStarter {
 			})
 			fp.exit(nil)
 		})
+		if fp.script.SyncStdin {
+			fp.x.Go("client.read", func() {
+				for {
+					gate.PointIf("client.read", func() bool {
+						fp.mu.Lock()
+						defer fp.mu.Unlock()
+						return fp.exited || (fp.pendSet && !fp.stdinBroken)
+					})
+					fp.mu.Lock()
+					if fp.exited || !fp.pendSet || fp.stdinBroken {
+						fp.mu.Unlock()
+						return
+					}
+					p, ch := fp.pend, fp.pendCh
+					fp.pendSet, fp.pend, fp.pendCh = false, nil, nil
+					fp.mu.Unlock()
+					fp.consume(p)
+					ch <- fakeWriteRes{len(p), nil}
+				}
+			})
+		}
 		if fp.script.Fault != "" && fp.script.Fault != "none" {
 			fp.x.Go("client.fault", func() {
 				gate.PointIf("client.fault."+fp.script.Fault, func() bool {
@@ -136,7 +171,7 @@ func (fp *fakeProc) whenDone(action func(error)) {
 func (fp *fakeProc) stateKey() string {
 	fp.mu.Lock()
 	defer fp.mu.Unlock()
-	return fmt.Sprintf("bw=%d ", fp.blockedWrites) + fmt.Sprintf("in=%x/%d recv=%v out=%d emitlog=%x unread=%d fault=%v stall=%v sc=%v sb=%v ex=%v/%v ab=%v",
+	return fmt.Sprintf("bw=%d pend=%v/%x ", fp.blockedWrites, fp.pendSet, fp.pend) + fmt.Sprintf("in=%x/%d recv=%v out=%d emitlog=%x unread=%d fault=%v stall=%v sc=%v sb=%v ex=%v/%v ab=%v",
 		fp.inbuf, fp.msgsWritten, fp.received, fp.outstanding, fp.emitLog, len(fp.outbuf), fp.faultDone, fp.stalled,
 		fp.stdinClosed, fp.stdinBroken, fp.exited, fp.exitErr, fp.aborted)
 }
@@ -150,9 +185,17 @@ func (fp *fakeProc) exit(err error) {
 	fp.exited = true
 	fp.exitErr = err
 	fp.outClosed = true
+	fp.failPendingLocked()
 	fp.notifyLocked()
 	close(fp.done)
 	gate.Poke()
+}
+
+func (fp *fakeProc) failPendingLocked() {
+	if fp.pendSet {
+		fp.pendCh <- fakeWriteRes{0, io.ErrClosedPipe}
+		fp.pendSet, fp.pend, fp.pendCh = false, nil, nil
+	}
 }
 
 func (fp *fakeProc) kill() { fp.exit(errors.New("killed by harness teardown")) }
@@ -216,7 +259,7 @@ func (fp *fakeProc) doFault() {
 	}
 	fp.faultDone = true
 	switch fp.script.Fault {
-	case "cut", "dup", "unknown", "oversize", "garbage", "garbage-high", "oversize-max":
+	case "cut", "dup", "unknown", "oversize", "garbage", "garbage-high", "oversize-max", "preanswer":
 		fp.faultBytes = true
 	}
 	var exitWith error
@@ -251,6 +294,18 @@ func (fp *fakeProc) doFault() {
 		fp.emitLocked([]byte{0xff, 0xff, 0xff, 0xff})
 	case "stall":
 		fp.stalled = true
+	case "preanswer":
+		// the client answers a test it has not (yet) taken from its input - a client that
+		// reads ahead on another descriptor, or simply a wrong one - and then exits whenever
+		// it likes without answering that test again
+		fp.preanswered = fp.script.FaultName
+		fp.emitted[fp.script.FaultName]++
+		fp.emittedN++
+		fp.emitLocked(frame(&conformancev1.ClientCompatResponse{TestName: fp.script.FaultName}))
+		fp.x.Go("client.fault.exit", func() {
+			gate.Point("client.fault.exit")
+			fp.exit(nil)
+		})
 	case "closeout":
 		// the client closes its output but stays alive and keeps reading its input
 		fp.outClosed = true
@@ -270,6 +325,9 @@ type fakeStdin fakeProc
 
 func (s *fakeStdin) Write(p []byte) (int, error) {
 	fp := (*fakeProc)(s)
+	if fp.script.SyncStdin {
+		return s.writeSync(p)
+	}
 	fp.mu.Lock()
 	first := len(fp.inbuf) == 0
 	fp.mu.Unlock()
@@ -305,6 +363,33 @@ func (s *fakeStdin) Write(p []byte) (int, error) {
 		fp.mu.Unlock()
 		return 0, errors.New("write |1: input/output error")
 	}
+	fp.mu.Unlock()
+	fp.consume(p)
+	return len(p), nil
+}
+
+// writeSync is Write with io.Pipe's semantics (fakeScript.SyncStdin).
+func (s *fakeStdin) writeSync(p []byte) (int, error) {
+	fp := (*fakeProc)(s)
+	// no gate of its own: the write only completes at the "client.read" gate (or fails when
+	// the pipe is closed), and the order of "closed" against the start of the write is not
+	// observable
+	fp.mu.Lock()
+	if fp.exited || fp.stdinClosed || fp.stdinBroken {
+		fp.mu.Unlock()
+		return 0, io.ErrClosedPipe
+	}
+	ch := make(chan fakeWriteRes, 1)
+	fp.pendSet, fp.pend, fp.pendCh = true, append([]byte{}, p...), ch
+	fp.mu.Unlock()
+	gate.Poke()
+	res := <-ch
+	return res.n, res.err
+}
+
+// consume is the client's reading side taking bytes from its input.
+func (fp *fakeProc) consume(p []byte) {
+	fp.mu.Lock()
 	fp.inbuf = append(fp.inbuf, p...)
 	var reqs []*conformancev1.ClientCompatRequest
 	for len(fp.inbuf) >= 4 {
@@ -341,7 +426,7 @@ func (s *fakeStdin) Write(p []byte) (int, error) {
 				return !fp.stalled || fp.exited
 			})
 			fp.mu.Lock()
-			if fp.exited || fp.stalled {
+			if fp.exited || fp.stalled || (fp.script.Fault == "preanswer" && fp.faultDone && fp.preanswered == req.TestName) {
 				fp.outstanding--
 				fp.mu.Unlock()
 				return
@@ -374,13 +459,13 @@ func (s *fakeStdin) Write(p []byte) (int, error) {
 			fp.emitLocked(b)
 		})
 	}
-	return len(p), nil
 }
 
 func (s *fakeStdin) Close() error {
 	fp := (*fakeProc)(s)
 	fp.mu.Lock()
 	fp.stdinClosed = true
+	fp.failPendingLocked()
 	fp.mu.Unlock()
 	gate.Poke()
 	return nil
